@@ -16,7 +16,7 @@ prop = Prop(
         "DockerComposeConnector builds them; binds none / identity / moved / root), bindings of 1..3 targets with locations 1..2 "
         "and services, <= 8 jobs with dyadic requirements (or none) re-scheduled up to twice after ROLLBACK, 4..40 operations "
         "(schedule started as a task, notify following the callers' protocol, recovery step, settle), a chaos schedule and a "
-        "drawn drain order. Non-trivial = >= 2 requests were granted, >= 1 request was found waiting at a quiescent point and "
+        "drawn drain order; per job (1 in 3) the release-time directory-usage query of the connector fails (non-zero exit). Non-trivial = >= 2 requests were granted, >= 1 request was found waiting at a quiescent point and "
         "some location hosted a fireable/running job (all measured); distinct by the whole case. exhaustive-2jobs: every "
         "protocol-conforming history of <= 5 (quick) / 6 (thorough) operations, each followed by quiescence, over 2 jobs on one "
         "location in 3 configurations (slots=1; hardware where the jobs exclude each other; hardware where they fit together "
@@ -64,6 +64,8 @@ def classify(h: sm.History, rec, pid: str) -> None:
         rec.label("rescheduled-after-rollback")
     if s["storage_kept"]:
         rec.label("storage-usage-kept")
+    if h.world.failed_queries:
+        rec.label("usage-query-failed-on-release")
     if h.chaos.s:
         rec.label("non-default-schedule")
     if h.aborted:
